@@ -1,4 +1,4 @@
-import CV.Proofs.BitsInspect
+import CV.Proofs.BitsIter
 /-!
 # C16 — bit-level stack and queue coders are faithful LIFO/FIFO containers
 
@@ -140,6 +140,58 @@ theorem queue_export_zero_padded {W : Nat} (hW : ValidW W) {c : Coder} (hI : Inv
   obtain ⟨_, _, _, hw, _⟩ := queue_export_format (validW_one hW) hI
   exact ⟨queue_export_padTo (validW_one hW) hI, hw⟩
 
+/-! ## the consuming iterators -/
+
+/-- `StackCoder::into_iterator()` yields exactly the bits on the stack, last written first, then
+    ends (no fault, never out of fuel) -/
+theorem stack_into_iterator {W : Nat} (hW : ValidW W) {c : Coder} (hI : Inv W c) :
+    Stack.intoIterator W c = .ok (bits W c).reverse :=
+  Stack.intoIterator_spec (validW_one hW) hI
+
+/-- … and that is what repeated `read_bit()` returns: as many `some`s as the iterator has items,
+    the same bits, then `none` -/
+theorem stack_into_iterator_eq_reads {W : Nat} (hW : ValidW W) {c : Coder} (hI : Inv W c) :
+    ∃ bs, Stack.intoIterator W c = .ok bs ∧
+      (run (Stack.step W) (List.replicate bs.length SOp.read) c).1 =
+        bs.map (fun b => Out.bit (some b)) ∧
+      (readBit W (run (Stack.step W) (List.replicate bs.length SOp.read) c).2).1 = none := by
+  have h1 := validW_one hW
+  refine ⟨(bits W c).reverse, Stack.intoIterator_spec h1 hI, ?_⟩
+  have hr := stack_run_refines h1 (List.replicate (bits W c).reverse.length SOp.read)
+    (SOp.read_lawful _) hI
+  have hs := stack_spec_reads W (bits W c).reverse.length (bits W c) (by simp)
+  rw [hs] at hr
+  refine ⟨hr.1, ?_⟩
+  rw [readBit_fst h1 hr.2.1, hr.2.2]
+  rfl
+
+/-- `QueueEncoder::into_overshooting_iter()` yields the written bits in order, then overshoots
+    with exactly the zero padding up to the next word boundary (`padTo`: fewer than `W` zero
+    bits, none at a word boundary), then ends -/
+theorem queue_overshooting_iter {W : Nat} (hW : ValidW W) {c : Coder} (hI : Inv W c) :
+    ∃ d', Queue.intoOvershootingIter W c = .ok (padTo W (bits W c), d') ∧
+      QDecoder.bits W d' = [] := by
+  obtain ⟨d', h, _, hn⟩ := Queue.intoOvershootingIter_spec (validW_one hW) hI
+  exact ⟨d', h, hn⟩
+
+/-- … and that is what repeated `read_bit()` on `into_decoder()` returns, followed by `none` -/
+theorem queue_overshooting_iter_eq_reads {W : Nat} (hW : ValidW W) {c : Coder} (hI : Inv W c) :
+    ∃ bs d', Queue.intoOvershootingIter W c = .ok (bs, d') ∧
+      (run (QDecoder.step W) (List.replicate bs.length DOp.read) (Queue.intoDecoder c)).1 =
+        bs.map (fun b => Out.bit (some b)) ∧
+      (QDecoder.readBit W
+        (run (QDecoder.step W) (List.replicate bs.length DOp.read) (Queue.intoDecoder c)).2).1 = none := by
+  have h1 := validW_one hW
+  obtain ⟨d', h, _, _⟩ := Queue.intoOvershootingIter_spec h1 hI
+  have hd := queue_intoDecoder_padTo h1 hI
+  refine ⟨padTo W (bits W c), d', h, ?_⟩
+  have hr := qdecoder_run_refines h1 (List.replicate (padTo W (bits W c)).length DOp.read)
+    (DOp.read_lawful _) hd.1
+  rw [hd.2, qdecoder_spec_reads] at hr
+  refine ⟨hr.1, ?_⟩
+  rw [(QDecoder.readBit_spec h1 hr.2.1).1, hr.2.2]
+  rfl
+
 /-! ## Exp-Golomb, generic in the integer width `N` -/
 
 /-- `decode (prefix v ++ rest) = (v, rest)` for every `v < 2^N` **including** `2^N - 1`
@@ -220,6 +272,13 @@ example : EG.decode 8 listSrc 30 (List.replicate 8 false ++ [true] ++ List.repli
 
 example : (EG.decBook 32).Lawful := EG.decBook_lawful 32
 
+/-- 11 bits in `u8` words: the stack iterator reverses them, the queue iterator overshoots by 5 zeros -/
+example : Stack.intoIterator 8 (writeBits 8 empty [true, false, true, true, false, false, true, true, true, false, true])
+    = .ok [true, false, true, true, true, false, false, true, true, false, true] := by decide
+
+example : (Queue.intoOvershootingIter 8 (writeBits 8 empty [true, false, true, true, false, false, true, true, true, false, true])).map (·.1)
+    = .ok ([true, false, true, true, false, false, true, true, true, false, true] ++ List.replicate 5 false) := by decide
+
 /-- a concrete mixed history (bits, the maximum `u8` symbol, a guard, an export/re-import)
     satisfies the hypotheses of `stack_lifo_history` and produces the expected outputs -/
 example :
@@ -257,3 +316,7 @@ end CV.Bits.C16
 #print axioms CV.Bits.C16.stack_expgolomb
 #print axioms CV.Bits.C16.queue_expgolomb
 #print axioms CV.Bits.C16.default_methods_mirror
+#print axioms CV.Bits.C16.stack_into_iterator
+#print axioms CV.Bits.C16.stack_into_iterator_eq_reads
+#print axioms CV.Bits.C16.queue_overshooting_iter
+#print axioms CV.Bits.C16.queue_overshooting_iter_eq_reads
